@@ -25,6 +25,23 @@ CLAIMED.update({
    text="(1) BFS over the public and generation-tagged API of the real ClockCache with 2 MB/1 MB watermarks against an exact CLOCK reference (entries, reference bits, hand, byte accounting) plus policy-independent clauses (no hit after remove, generation-exact hits, eviction reaches the low mark and spares referenced entries when unreferenced suffice). (2) Every persistent SEQ path is executed with the cache on and off in lock-step and must give identical results.",
    note="Reader/writer interleavings on cache-warm keys are added by the SCHED engine when listed in evidence.", ref="DESIGN.md §5 C16"),
 })
+CLAIMED.update({
+ "C02": dict(cat="model_checking", technique="exhaustive crash-image enumeration of device-write logs of BFS histories; real recovery vs per-key history window",
+   text="Every history of a BFS over write/overwrite/delete/TTL/flush/tick alphabets is executed on the real store over a logged device (from before the device exists). For every epoch of the log every subset of in-flight 4 KiB blocks and 512-byte tearing of single blocks is applied to the durable image; every distinct image is reopened with the real recovery and each key must recover a state no older than the one current when the last acknowledged flush (or clean close) began.",
+   note="fsync model: a completed fsync makes all earlier writes durable; un-synced blocks may be lost, reordered or torn independently. Histories bounded by the depth in evidence; one worker, coordinator tick as an explicit symbol. Background-flusher interleavings need the SCHED engine (listed in evidence when run).", ref="DESIGN.md §4.2, §5 C02"),
+ "C03": dict(cat="model_checking", technique="exhaustive crash-image enumeration incl. adversarial values; reopen must succeed with authentic untorn generations",
+   text="Same images as C02 with a harsher oracle: reopen must succeed; every exposed key must carry exactly one generation (value, timestamp, expiry) the application stored, inside the admissible window; never-written keys must not surface; len() equals the exposed keys. Alphabets include two-block values whose second block is a byte-exact valid record of another key (token bound to the block it lands on), a valid COMPLETE retirement marker, and a legacy marker.",
+   note="As C02. Found and fixed: un-synced fresh-device metadata (known_findings.json).", ref="DESIGN.md §5 C03"),
+ "C04": dict(cat="model_checking", technique="nested crash-image enumeration of recovery's own writes; repeated reopen",
+   text="Every crash image that opens is reopened again without writing (contents must be identical), and the first recovery's own device-write log (journal replay, retirement of losers/expired generations, journal clears, metadata) is enumerated again into nested crash images, each recovered and required to yield the contents of the first successful recovery; recovery's writes are intersected with the extents of the records it reports live.",
+   note="Nesting depth and reopen cycles per tier in evidence.", ref="DESIGN.md §5 C04"),
+ "C05": dict(cat="model_checking", technique="BFS on tiny devices with mixed extent sizes; exact-partition oracle at every quiescent point and after every crash recovery",
+   text="Deep BFS histories on 5-7 block devices and on v1/v2/v3 devices with block-boundary-sized records: after every acknowledged flush/reopen/tick the live store's extents must be pairwise disjoint, in bounds, and the free runs exactly their complement; the usage counter must equal the live extents; an independent decoder of the raw file must find exactly the live keys' bytes (no other key damaged) and matching metadata counters. The same partition invariants are checked on every store recovered from a crash image.",
+   note="Worker count 1; multi-worker schedules are out of the quick tier.", ref="DESIGN.md §5 C05"),
+ "C10": dict(cat="model_checking", technique="BFS histories; every flushed image decoded by an independent implementation of the documented layout; golden files opened by the current tree",
+   text="Every acknowledged-flush image of a BFS over key lengths {1,255,256,max recoverable}, 1-3 block values, extreme timestamps and expiries on v1/v2/v3 devices is decoded by layoutref (own CRC32C, token fold, marker/journal/metadata layout, newest-timestamp-wins) and must contain exactly the live keys, a clear journal, valid metadata copies with counters equal to the live totals, verifying tokens (v3) or zero tokens (v1/v2). Conversely golden v3 files written by the pinned commit and layoutref-encoded v1/v2 files (duplicates, markers, max keys) must open and read back key for key, and legacy devices must keep their record format when written to.",
+   note="layoutref shares no code with the crate; golden/INDEX.json pins the corpus by hash.", ref="DESIGN.md §4.6, §5 C10"),
+})
 PENDING = {}
 props=[json.loads(l) for l in open('/verif/properties.jsonl')]
 checks=[]; na=[]
